@@ -140,4 +140,6 @@ def run(ctx, rep):
     c05.builtin_tables(ctx, rep, "C17")
     import common_g
     rep.floor("IN", "grammar actions feeding this rule", common_g.emit_inputs(ctx, rep, "C17"), 5)
+    import pipeline
+    pipeline.rule(ctx, rep, "C17", ['resolve_types'])
     rep.assumptions += ["TB-1 rustc MIR (format templates are read from rustc's compact format_args encoding)", "TB-4 tabulator", "names stored in the tree are the identifiers written in the source (grammar wiring rule, C02)"]
